@@ -108,15 +108,34 @@ void h_allocfree(void)
     OBT("C20-O2", x != y && ((uintptr_t)x & 7u) == 0u && ((uintptr_t)y & 7u) == 0u, "two live objects are distinct and 8-byte aligned");
     OBT("C20-O2", (char *)y >= (char *)x + MP.obj_sz || (char *)x >= (char *)y + MP.obj_sz, "two live objects do not overlap");
     OBT("C20-O2", __CPROVER_w_ok(x, MP.obj_sz) && __CPROVER_w_ok(y, MP.obj_sz), "each object is writable for the full object size");
-    /* contents are stable while allocated: fill x, then operate on the pool */
-    for (size_t i = 0; i < 32u; i++) if (i < MP.obj_sz) ((unsigned char *)x)[i] = (unsigned char)(0xA0u + i);
+    /* contents are stable while allocated: EVERY live object is filled with its own pattern and re-read after
+     * every later pool operation - the neighbours on both sides of the object being allocated / freed, whichever
+     * way the free list is threaded (a write one word past a freed or allocated 8-byte object lands in a live
+     * neighbour: seeded C20-m3, which the first version, filling x only, let through) */
+#define FILL(p, tag) do { for (size_t i_ = 0; i_ < 32u; i_++) if (i_ < MP.obj_sz) ((unsigned char *)(p))[i_] = (unsigned char)((tag) + i_); } while (0)
+#define KEPT(p, tag, ok) do { for (size_t i_ = 0; i_ < 32u; i_++) if (i_ < MP.obj_sz && ((unsigned char *)(p))[i_] != (unsigned char)((tag) + i_)) (ok) = false; } while (0)
+    bool same = true;
+    FILL(x, 0xA0u); FILL(y, 0x40u);
     void *z = cmi_mempool_alloc(&MP);
+    KEPT(x, 0xA0u, same); KEPT(y, 0x40u, same);
+    FILL(z, 0x10u);
+    KEPT(x, 0xA0u, same); KEPT(y, 0x40u, same);
     cmi_mempool_free(&MP, y);
+    KEPT(x, 0xA0u, same); KEPT(z, 0x10u, same);
     void *y2 = cmi_mempool_alloc(&MP);
     OBT("C20-O2", z != x && z != y && y2 == y, "a further allocation is distinct from the live ones; a freed object is the next one handed out (LIFO), never a live one");
-    bool same = true; for (size_t i = 0; i < 32u; i++) if (i < MP.obj_sz && ((unsigned char *)x)[i] != (unsigned char)(0xA0u + i)) same = false;
-    OBT("C20-O2", same, "an allocated object keeps its contents while other objects are allocated and freed");
-    cmi_mempool_free(&MP, x); cmi_mempool_free(&MP, z);
+    KEPT(x, 0xA0u, same); KEPT(z, 0x10u, same);
+    FILL(y2, 0x70u);
+    KEPT(x, 0xA0u, same); KEPT(z, 0x10u, same);
+    OBT("C20-O2", same, "every allocated object keeps its contents while other objects are allocated, written and freed");
+    /* returning an object must not touch its live neighbours either (x is the lower neighbour of y2 when the
+     * free list is threaded upwards: a word written past the freed 8-byte object is y2's first word) */
+    bool same2 = true;
+    cmi_mempool_free(&MP, x);
+    KEPT(y2, 0x70u, same2); KEPT(z, 0x10u, same2);
+    cmi_mempool_free(&MP, z);
+    KEPT(y2, 0x70u, same2);
+    OBT("C20-O2", same2, "returning an object leaves every object that is still allocated untouched");
     OBT("C20-O2", cmi_mempool_alloc(&MP) == z && cmi_mempool_alloc(&MP) == x, "returned objects are handed out again in LIFO order");
     CANARY("mempool alloc/free: end reachable");
 }
